@@ -26,6 +26,8 @@ EXPLANATION = (
     "of IOData, MolecularOrbitals, Shell and Cube carries a validate_shape validator.  Declined: the value of "
     "the line number reported, byte-level truncation inside multi-byte characters, wall-clock bounds."
 )
+TECHNIQUE += '; control-dependence comparison of parallel per-record list appends; empty-dict path sensitivity in the termination analysis'
+EXPLANATION += " Added: (R7) lists appended in one record loop under the same guards form a group; no sibling list is appended under an extra condition (unequal lengths); R4 now proves the Molden [MO] loop through an 'empty dict' pseudo-flag (info[<const>] on an empty dict ends the path) instead of a frozen exception."
 TRUSTED = [
     "CPython ast parser", "PEP 479 (StopIteration leaving a generator body becomes RuntimeError)",
     "with-statement calls __exit__ on every exit including GeneratorExit",
